@@ -2268,9 +2268,15 @@ class Interp:
             # its loop contracts by a fragment of the loop's test / iterable as well as by ordinal
             root = self.frames[0].fc
             by_text = getattr(root, "loops_by_text", None) or {}
-            if by_text and (fr.fc is root or getattr(fr.fc, "auto_inlined", False)):
+            if by_text and (fr.fc is root or getattr(fr.fc, "auto_inlined", False) or fr.fc.inline):
                 text = ast.unparse(node.test if isinstance(node, ast.While) else node.iter)
                 for frag, sp in by_text.items():
+                    if frag in text:
+                        return k, sp
+            own = getattr(fr.fc, "loops_by_text", None) or {}
+            if own and fr.fc is not root:
+                text = ast.unparse(node.test if isinstance(node, ast.While) else node.iter)
+                for frag, sp in own.items():
                     if frag in text:
                         return k, sp
         return k, spec
